@@ -296,9 +296,9 @@ func (fc *funcContext) translateExpr(expr ast.Expr) *expression {
 			case isComplex(basic):
 				return fc.formatExpr("new %1s(-%2r, -%2i)", fc.typeName(t), e.X)
 			case isUnsigned(basic):
-				return fc.fixNumber(fc.formatExpr("-%e", e.X), basic)
+				return fc.fixNumber(fc.formatExpr(negationFormat(e.X), e.X), basic)
 			default:
-				return fc.formatExpr("-%e", e.X)
+				return fc.formatExpr(negationFormat(e.X), e.X)
 			}
 		case token.XOR:
 			if is64Bit(basic) {
@@ -1372,6 +1372,16 @@ func (fc *funcContext) loadStruct(array, target string, s *types.Struct) string 
 		// TODO(nevkontakte): Explicitly panic if unsupported field type is encountered?
 	}
 	return code
+}
+
+// negationFormat returns the format for negating x. The operand is wrapped in
+// parentheses if it starts with a minus sign itself, otherwise "-" followed by
+// "-x" would be read as the JavaScript decrement operator.
+func negationFormat(x ast.Expr) string {
+	if u, ok := astutil.RemoveParens(x).(*ast.UnaryExpr); ok && u.Op == token.SUB {
+		return "-(%e)"
+	}
+	return "-%e"
 }
 
 func (fc *funcContext) fixNumber(value *expression, basic *types.Basic) *expression {
